@@ -252,6 +252,51 @@ def r01_2(prog: Program, rep: Report, mrows, urows, pe):
         )  # fmt: skip
 
 
+def routine_kind(prog, cls) -> str:
+    """Structural kind of a routine, from its member slots: mapping / iterable / fixed / struct / union / scalar."""
+    from . import c03
+    from . import composites as K
+
+    f = C.call_of(prog, cls)
+    sl = K.slots_of(prog, cls)
+    if f is not None and c03.is_union_like(prog, f):
+        return "union"
+    kinds = sorted((s.kind, str(s.alts[0].position if s.alts else s.position)) for s in sl.values())
+    if any(k == "dict" for k, _ in kinds):
+        return "struct"
+    if any(k == "list" for k, _ in kinds):
+        return "fixed"
+    singles = [p for k, p in kinds if k == "single"]
+    if singles == ["0", "1"]:
+        return "mapping"
+    if singles == ["0"]:
+        return "iterable"
+    return "scalar"
+
+
+def r01_6(prog: Program, rep: Report, mrows, urows, pe):
+    """Composite forms are served by routines of the same structural kind in both directions."""
+    n = 0
+    for a in C.catalogue():
+        if not (a.subscripted or a.flags):
+            continue
+        km, rm = C.route(prog, pe, mrows, a)
+        ku, ru = C.route(prog, pe, urows, a)
+        if km == "unknown" or ku == "unknown":
+            rep.undecided("R01.6", "dispatch", mrows[0].loc, f"{a.label()}: routing undecidable (marshal: {km}, unmarshal: {ku})", detail=a.label())
+            continue
+        cm = rm.routine if rm else C.fallback_routine(prog, "marshal")
+        cu = ru.routine if ru else C.fallback_routine(prog, "unmarshal")
+        if cm is None or cu is None:
+            continue
+        kindm, kindu = routine_kind(prog, cm), routine_kind(prog, cu)
+        n += 1
+        # a subscripted iterator has no marshal-side twin (it is consumed as an iterable)
+        ok = kindm == kindu
+        rep.check(ok, "R01.6", "dispatch", (ru or rm).loc if (ru or rm) else "", f"{a.label()}: {cm.name} / {cu.name} are both `{kindm}` routines", f"{a.label()} is marshalled by a `{kindm}` routine ({cm.name}) but unmarshalled by a `{kindu}` routine ({cu.name}): the two directions disagree about the shape (e.g. a fixed tuple read back as a variable-length one loses its arity check and per-position routines)", detail=a.label())
+    return n
+
+
 def r01_3(prog: Program, rep: Report, urows, pe):
     target = {}
     for cls in oracle.DATETIME_FIELDS:
@@ -344,10 +389,12 @@ def run(prog: Program, rep: Report, tier: str):
     rep.rule("R01.2", "marshal wire form / unmarshal reader form are an inverse pair per scalar family", floor=19)
     rep.rule("R01.3", "temporal reconstructions copy every constructor field from one source", floor=3)
     rep.rule("R01.4", "tzinfo re-attached after .time()", floor=3)
+    rep.rule("R01.6", "composite forms are served by the same structural kind of routine in both directions", floor=15)
     rep.rule("R01.5", "duration writer covers pendulum's decomposition (shared with R04.2)", floor=1)
     mrows, pe, _ = r01_1(prog, rep, "marshal")
     urows, _, _ = r01_1(prog, rep, "unmarshal")
     r01_2(prog, rep, mrows, urows, pe)
+    r01_6(prog, rep, mrows, urows, pe)
     r01_3(prog, rep, urows, pe)
     r01_4(prog, rep)
     from . import c04
